@@ -31,9 +31,11 @@ StepT ==
       adds2 == IF st.op = "deact" THEN {} ELSE IF st.op \in {"act0", "act1", "act2", "act3"} THEN AddOf(st.op) ELSE adds
       isCon == st.op \in {"con0", "con1", "con2", "con3"}
       e == IF act2 THEN FirstBad(st.env, Base0 \cup adds2) ELSE 0
+      off == IF act2 THEN 0 ELSE FirstBad(st.env, {GlobalSeq[j] : j \in DOMAIN GlobalSeq})   \* deactivated: nothing is refused
       p == FirstBad(st.plain, Base0)
       c == IF isCon THEN FirstBad(st.inst, Base0 \cup AddOf(st.op)) ELSE 0
       why == IF ~st.base_same THEN "the built-in allowlist was altered"
+             ELSE IF off # 0 THEN "no environment is active but " \o GlobalSeq[off] \o " is " \o st.env[off] \o " through the pickle module"
              ELSE IF e # 0 THEN "active environment: " \o GlobalSeq[e] \o " " \o st.env[e] \o " but permitted set says " \o Want(Base0 \cup adds2, e)
              ELSE IF p # 0 THEN "unpickler without additions: " \o GlobalSeq[p] \o " " \o st.plain[p]
              ELSE IF c # 0 THEN "constructed unpickler: " \o GlobalSeq[c] \o " " \o st.inst[c]
